@@ -350,6 +350,14 @@ class TCLLHRatio(
 
         ns_pidx = self._pmm.get_gflp_idx(name='ns')
 
+        # The Newton-Rapson minimizers vary the first global floating parameter
+        # using the first and second derivative w.r.t. ns.
+        if ns_pidx != 0:
+            raise ValueError(
+                'The Newton-Rapson minimizers vary only the first global '
+                'floating parameter, which must be the parameter ns! '
+                f'The index of the parameter ns is {ns_pidx:d}.')
+
         def negative_llhratio_func_nr1d_ns(fitparam_values, tl):
             ns = fitparam_values[ns_pidx]
             src_params_recarray = self._pmm.create_src_params_recarray(
